@@ -1681,7 +1681,6 @@ func (a *boundsAn) canonicalFieldLoad(ap string, f *types.Var) ssa.Value {
 	return nil
 }
 
-
 // refine adds definition facts that need the block facts of the finished fixpoint:
 //
 //	monotone shifts   p = X >> n, q = Y >> n (or / by the same positive constant): X >= Y at the later of
@@ -1846,7 +1845,6 @@ func (a *boundsAn) refine() {
 		}
 	}
 }
-
 
 // proveByMinSplit: case split on a min / max builtin mentioned in e. min(a1..an) equals one of its
 // arguments, and that argument is then <= all the others (>= for max); e must hold in every case.
